@@ -772,3 +772,27 @@ func init() {
 		Outside: []string{"the 20 payload structs through encoding/json (reflection), ISO8601Time (time.Format/Parse), omitempty behaviour"},
 	})
 }
+
+func init() {
+	register(&PropSpec{
+		ID:   "C16",
+		Pkgs: []string{"joinserver"},
+		Items: func(tier string, seed int64) []Item {
+			var it []Item
+			for cf := 0; cf <= 1; cf++ {
+				for a := 0; a <= 1; a++ {
+					for n := 0; n <= 1; n++ {
+						it = append(it, Item{PkgKey: "joinserver", Func: "VerifC16_Join", Shape: []int{cf, a, n}})
+						for typ := 0; typ <= 2; typ++ {
+							it = append(it, Item{PkgKey: "joinserver", Func: "VerifC16_Rejoin", Shape: []int{typ, cf, a, n}})
+						}
+					}
+				}
+			}
+			return it
+		},
+		Bounds:  func(tier string) map[string]string { return map[string]string{} },
+		Stubs:   append(append([]string{"logrus: no-op", "go-aes-key-wrap executed from source over the AES uninterpreted functions"}, stubCrypto...), stubErrors...),
+		Outside: []string{"ServeHTTP, JSON decoding of requests, the UnknownDevEUI mapping (callback + HTTP layer), goroutine interleavings of concurrent requests (the wrappers write no package-level state)"},
+	})
+}
